@@ -14,3 +14,4 @@ pub mod der;
 pub mod names;
 pub mod uptrace;
 pub mod bytefault;
+pub mod uptrace_read;
